@@ -218,7 +218,7 @@ def build(C):
     t += '}\n'
     # ---- admission (C10): the `async { .. }` block of handle_incoming_task ----------------------------------
     t += C.lifted(CM, 'impl ConnectionManager :: fn handle_incoming_task', 'ConnectionManager::handle_incoming_task::admission', ['C10'],
-                  anchor='let fut = async', kind='block', name='handle_incoming_task_admission', is_async=True,
+                  anchor=re.compile(r'let\s+\w+\s*=\s*async\b'), kind='block', name='handle_incoming_task_admission', is_async=True,
                   params='connecting: Connecting, config: &Config, active_peers: &mut ActivePeers, known_peers: &KnownPeers',
                   ret_ty='Result<Connection>', ret='r', transforms=[await_connecting],
                   rewrites=[dict(rule='X5', pattern='super::wire::', repl='wire::', optional=True)],
@@ -235,7 +235,7 @@ def build(C):
 ''')
     # ---- explicit / background dial (C10, C03): the `async { .. }` block of dial_peer_task --------------------
     t += C.lifted(CM, 'impl ConnectionManager :: fn dial_peer_task', 'ConnectionManager::dial_peer_task::dial', ['C10', 'C03'],
-                  anchor='let fut = async', kind='block', name='dial_peer_task_dial', is_async=True,
+                  anchor=re.compile(r'let\s+\w+\s*=\s*async\b'), kind='block', name='dial_peer_task_dial', is_async=True,
                   params='endpoint: &Endpoint, target_address: &Address, peer_id: Option<PeerId>',
                   ret_ty='Result<Connection>', ret='r', transforms=[await_connecting],
                   rewrites=[dict(rule='X5', pattern='super::wire::', repl='wire::', optional=True)],
